@@ -100,6 +100,10 @@ struct C06 : Scenario {
 		p.seti("euid", euid);
 		static const int umasks[] = {022, 002, 077, 000, 027};
 		p.seti("umask", umasks[rng.below(5)]);
+		// root is not stopped by permission bits: a umask that takes the owner's bits away, so that what mkdir()/open() leave
+		// behind differs from every recorded mode; and an extraction directory that hands its set-group-ID bit to new directories
+		if (euid == 0 && rng.chance(1, 6)) { static const int hard_umasks[] = {0177, 0277, 0377, 0777, 0111}; p.seti("umask", hard_umasks[rng.below(5)]); }
+		if (rng.chance(1, 8)) p.seti("rootmode", rng.chance(1, 2) ? 02755 : 03777);
 		if (lib) {
 			Task t;
 			t.kind = "FILE_SEEK";
@@ -174,6 +178,8 @@ struct C06 : Scenario {
 				e.type = 'f';
 				e.path = base + (op.i ? "" : m.gpath) + m.gname;
 				e.data = to_bytes("previous contents");
+				// sometimes far longer than anything the archive holds: a replacement that does not start from an empty file shows
+				if (rng.chance(1, 3)) { e.data.resize(6000); for (size_t k = 17; k < e.data.size(); ++k) e.data[k] = (uint8_t) ('A' + k % 23); }
 				e.mode = 0644;
 				e.uid = e.gid = (int) p.geti("euid");
 				e.mtime = 1234567890;
